@@ -28,6 +28,54 @@ impl Default for Document {
     }
 }
 
+/// Verification hooks (see `crate::verif_hooks`): construct a document from already-lexed
+/// tokens without running [`Document::parse`], and forward to private passes.
+#[cfg(kani)]
+impl Document {
+    pub fn verif_from_parts(source: Lrc<Vec<char>>, tokens: Vec<Token>) -> Self {
+        Self { source, tokens }
+    }
+
+    pub fn verif_into_tokens(self) -> Vec<Token> {
+        self.tokens
+    }
+
+    pub fn verif_match_quotes(&mut self) {
+        self.match_quotes()
+    }
+
+    pub fn verif_newlines_to_breaks(&mut self) {
+        self.newlines_to_breaks()
+    }
+
+    pub fn verif_condense_indices(&mut self, indices: &[usize], stretch_len: usize) {
+        self.condense_indices(indices, stretch_len)
+    }
+
+    pub fn verif_condense_number_suffixes(&mut self) {
+        self.condense_number_suffixes()
+    }
+
+    pub fn verif_condense_spaces(&mut self) {
+        self.condense_spaces()
+    }
+
+    pub fn verif_condense_newlines(&mut self) {
+        self.condense_newlines()
+    }
+
+    pub fn verif_condense_dotted_initialisms(&mut self) {
+        self.condense_dotted_initialisms()
+    }
+
+    pub fn verif_condense_pattern<F>(&mut self, pattern: &impl Pattern, edit: F)
+    where
+        F: Fn(&mut Token),
+    {
+        self.condense_pattern(pattern, edit)
+    }
+}
+
 impl Document {
     /// Locate all the tokens that intersect a provided span.
     ///
